@@ -14,41 +14,68 @@
 //
 //	types       uint8/16/32/64, int8/16/32/64, int, uint (64 bit), named integer types, bool,
 //	            float64, float32 (values, constants, conversions; arithmetic on float64 only),
-//	            [N]byte arrays (can.Data), []byte (contents only, see "slices" below), slices of any
+//	            [N]byte arrays (can.Data), []byte (contents only, see "slices" below), []S / []*S with S
+//	            a named struct of this module (the LIST of the element values: len, range; elements of
+//	            a []*S assumed non-nil), slices of any
 //	            other element type reduced to their LENGTH (only len(x)), string (constants, locals,
-//	            results; no operations), go/types.Type / *go/types.Basic values obtained as
+//	            parameters, results; == != and switch), go/types.Type / *go/types.Basic values obtained as
 //	            types.Typ[kind] (reduced to the kind), named structs whose USED fields have these
 //	            types - including fields promoted through embedded structs (x.f = x.E.f) -,
-//	            pointers to such arrays/structs as parameters/receivers only, `error` results
+//	            pointers to such arrays/structs as parameters/receivers (= the value pointed to);
+//	            *S as a RESULT or as a LOCAL (range variable over a []*S, result of a call) is option S
+//	            (nil = None; p.f reads the zero value for nil: that panic is not modelled); `error` results
 //	functions   any number of results (several results = a tuple); a function may write through at
-//	            most ONE pointer parameter: without results it is translated to a function returning
-//	            that parameter's final value, with results to one returning (that value, results...);
+//	            most ONE pointer parameter OR one []byte parameter: without results it is translated
+//	            to a function returning that parameter's final value (for a []byte: its final
+//	            contents), with results to one returning (that value, results...); a function that
+//	            contains the explicit bounds check `_ = b[k]` returns option (None = that check
+//	            panics) and cannot be called from another translated function;
 //	            only functions with exactly one result and no written pointer can be CALLED in an
-//	            expression, only result-less ones as a statement; no recursion; unnamed / blank
+//	            expression, only result-less ones as a statement; a pure function with several results
+//	            can be called as `x, y := g(...)` and as `return g(...)`; no recursion; unnamed / blank
 //	            parameters are kept
 //	statements  x := e, x = e, x op= e, x++, x--, `var x T`, `var x T = e` on locals;
 //	            a[i] = e, a[i] op= e, s.f = e, s.f op= e (functional update of arrays / records);
 //	            if / else if / else (with init statement), switch with or without tag (constant or
 //	            non-constant cases, default anywhere, no fallthrough/break), return, nested blocks,
-//	            calls of whitelisted result-less functions as statements;
-//	            nlenc.PutUint8/16/32/64 / PutInt32(b[lo:hi], v) and copy(dst, src) as statements
+//	            calls of whitelisted result-less functions as statements; named results if the body
+//	            never mentions them; `defer func() { if err != nil { err = fmt.Errorf(...) } }()` (a
+//	            no-op under the nil / non-nil reduction of errors), no other defer;
+//	            loops: `for k, x := range e {...}` (e a []S / []*S / []byte; k, x new variables or _) and
+//	            `for k, r := range s` over a string (k = byte index, r = the decoded rune; GoSem.v
+//	            go_range_string / go_utf8_decode) and
+//	            `for i := 0; i < len(x); i++ {...}` (i an int, the body assigns neither i nor x) whose
+//	            body consists of statements of this subset, `continue` and `return`: translated to
+//	            GoSem.v's go_range (a fold over the list with early exit; the state = the locals
+//	            declared before the loop that the body assigns); no break/goto/labels;
+//	            nlenc.PutUint8/16/32/64 / PutInt32(b[lo:hi], v), binary.LittleEndian.PutUint16/32/64
+//	            (b[lo:hi], v) and copy(dst, src) as statements; `_ = b[k]` (b []byte, k constant)
 //	expressions constants (folded by go/types; floats printed as the IEEE bit pattern of the rounded
 //	            value; strings as byte lists), locals, parameters, + - * / % (divisor: non-zero
 //	            constant) << >> (count: unsigned type or constant) & | ^ &^, unary - ^ ! +,
 //	            == != < <= > >= on integers and on float64, + - * / and unary - on float64,
-//	            == != on bools, && ||, conversions between integer types, integer -> float64,
+//	            == != on bools and on strings (also: switch on a string), && ||, conversions between integer types, integer -> float64,
 //	            float64 <-> float32, a[i], s.f, struct literals with keyed fields, calls of
 //	            whitelisted functions/methods, fmt.Errorf(...) (= non-nil error), nil (error or
-//	            []byte result), len(x), make([]byte, const), b[lo:hi] with constant bounds,
+//	            []byte result), len(x), make([]byte, const), b[lo:hi] / b[lo:] / b[:hi] of a []byte
+//	            (integer bounds, constant or not; of a [N]byte array only as the source of copy or
+//	            the argument of a library reader),
 //	            types.Typ[k], the library functions math.Max/Min/IsNaN/Float32bits/Float32frombits/
-//	            Float64bits/Float64frombits and nlenc.Uint8/Uint16/Uint32/Uint64/Int32, and the
+//	            Float64bits/Float64frombits, unicode.IsDigit/IsUpper/IsLower/IsLetter (WITHOUT a model:
+//	            they become leading parameters `Z -> bool` of every translated function that uses
+//	            them, directly or through a callee), nlenc.Uint8/Uint16/Uint32/Uint64/Int32 and
+//	            binary.LittleEndian.Uint16/Uint32/Uint64 (encoding/binary), and the
 //	            reinterpreting load *(*T)(unsafe.Pointer(&x)) of a local x for (x's type -> T) in
 //	            uint64->float32, uint32->float32, uint64->float64, float32->uint32, float64->uint64
 //	slices      no aliasing: a []byte LOCAL can only be bound to make(...); stores (b[i] = v,
-//	            nlenc.PutXxx(b[lo:hi], v), copy(b[lo:hi], src)) are accepted only when b is such a
-//	            local (or, for copy, an array l-value) and are printed as functional updates of b;
-//	            a []byte parameter can be read, sliced, passed to readers and returned, never
-//	            written; nlenc readers/writers on a constant sub-slice of the wrong width are rejected
+//	            nlenc/binary PutXxx(b[lo:hi], v) with constant bounds, copy(b[lo:hi], src) with
+//	            constant bounds or open-ended b[lo:]) are accepted only when b is such a local or THE
+//	            written []byte parameter of the function (or, for copy, an array l-value) and are
+//	            printed as functional updates of b; the written []byte parameter is ASSUMED not to
+//	            overlap any other parameter (GoSem.v header); every other []byte parameter can be
+//	            read, sliced, passed to readers and returned, never written; nlenc readers/writers on
+//	            a constant sub-slice of the wrong width (binary.LittleEndian: of a smaller width) are
+//	            rejected
 //
 // Every integer operation is emitted at the static type go/types reports for that expression,
 // against the operators of coq/theories/Translate/GoSem.v, every floating-point operation against
@@ -140,6 +167,34 @@ var whitelist = []struct{ pkg, recv, name string }{
 	{"pkg/socketcan", "frame", "isRemote"},
 	{"pkg/socketcan", "frame", "isError"},
 	{"pkg/socketcan", "frame", "id"},
+	{"pkg/socketcan", "frame", "unmarshalBinary"},
+	{"pkg/socketcan", "frame", "marshalBinary"},
+	{"pkg/socketcan", "frame", "errorClass"},
+	{"pkg/socketcan", "frame", "lostArbitrationBit"},
+	{"pkg/socketcan", "frame", "controllerError"},
+	{"pkg/socketcan", "frame", "protocolError"},
+	{"pkg/socketcan", "frame", "protocolErrorLocation"},
+	{"pkg/socketcan", "frame", "transceiverError"},
+	{"pkg/socketcan", "frame", "controllerSpecificInformation"},
+	{"pkg/socketcan", "frame", "decodeErrorFrame"},
+	{"pkg/dbc", "MessageID", "IsExtended"},
+	{"pkg/dbc", "MessageID", "ToCAN"},
+	{"pkg/dbc", "MessageID", "Validate"},
+	{"internal/identifiers", "", "IsAlphaChar"},
+	{"internal/identifiers", "", "IsNumChar"},
+	{"pkg/dbc", "SignalValueType", "Validate"},
+	{"pkg/dbc", "AccessType", "Validate"},
+	{"pkg/dbc", "EnvironmentVariableType", "Validate"},
+	{"pkg/dbc", "AttributeValueType", "Validate"},
+	{"pkg/dbc", "ObjectType", "Validate"},
+	{"pkg/descriptor", "Database", "Message"},
+	{"pkg/descriptor", "Database", "Node"},
+	{"pkg/descriptor", "Database", "Signal"},
+	{"pkg/descriptor", "Message", "MultiplexerSignal"},
+	{"pkg/descriptor", "Signal", "ValueDescription"},
+	{"pkg/descriptor", "Signal", "UnmarshalValueDescription"},
+	{"pkg/dbc", "Identifier", "Validate"},
+	{"internal/identifiers", "", "IsCamelCase"},
 }
 
 // ---------------------------------------------------------------------------- errors
@@ -193,6 +248,7 @@ const (
 	kLen   // a slice whose elements are outside the subset: only its length is kept (len(x))
 	kString
 	kBasicTy // go/types.Type values obtained as types.Typ[kind]: the kind
+	kList    // []*S / []S with S a named struct of the subset: the list of the element VALUES
 )
 
 type gtype struct {
@@ -202,6 +258,7 @@ type gtype struct {
 	n      int64
 	st     *structInfo
 	ptr    bool
+	opt    bool // a *S result or local: option S (nil = None); parameters/receivers of type *S are the value
 }
 
 type structInfo struct {
@@ -266,6 +323,15 @@ func (t *translator) classify(pos token.Pos, typ types.Type) gtype {
 		if b, ok := u.Elem().Underlying().(*types.Basic); ok && b.Kind() == types.Uint8 {
 			return gtype{k: kBytes}
 		}
+		et := u.Elem()
+		if p, ok := et.(*types.Pointer); ok {
+			et = p.Elem()
+		}
+		if n, ok := et.(*types.Named); ok {
+			if est, ok := n.Underlying().(*types.Struct); ok && n.Obj().Pkg() != nil && strings.HasPrefix(n.Obj().Pkg().Path(), modPath) {
+				return gtype{k: kList, st: t.structOf(n, est)}
+			}
+		}
 		return gtype{k: kLen}
 	case *types.Interface:
 		if n, ok := typ.(*types.Named); ok && n.Obj().Pkg() != nil && n.Obj().Pkg().Path() == "go/types" && n.Obj().Name() == "Type" {
@@ -308,7 +374,12 @@ func (g gtype) coq() string {
 	case kArray:
 		return "data"
 	case kStruct:
+		if g.opt {
+			return "(option " + g.st.coq + ")"
+		}
 		return g.st.coq
+	case kList:
+		return "(list " + g.st.coq + ")"
 	case kFloat:
 		return fmt.Sprintf("go_f%d", g.bits)
 	case kBytes:
@@ -335,7 +406,7 @@ func (g gtype) same(h gtype) bool {
 		return g.bits == h.bits
 	case kArray:
 		return g.n == h.n
-	case kStruct:
+	case kStruct, kList:
 		return g.st == h.st
 	}
 	return true
@@ -357,10 +428,16 @@ func (t *translator) zero(pos token.Pos, g gtype) string {
 		return "bytes_nil"
 	case kLen:
 		return "0"
-	case kString:
+	case kString, kList:
 		return "[]"
 	case kBasicTy:
 		t.failf(pos, "zero value of go/types.Type")
+	}
+	if g.opt {
+		return "None"
+	}
+	if len(g.st.fields) == 0 {
+		return "mk_" + g.st.coq
 	}
 	// struct: only meaningful once the used-field set is complete (phase 2)
 	var parts []string
@@ -390,7 +467,9 @@ type fn struct {
 	params            []*param // receiver first
 	res               *gtype   // nil: no result; otherwise the first result
 	results           []gtype  // all results
-	mut               *param   // pointer parameter written through, or nil
+	mut               *param   // pointer (or []byte) parameter written through, or nil
+	oracles           []string // uninterpreted library functions used (own and callees'): leading parameters
+	partial           bool     // contains an explicit bounds check `_ = b[k]`: result type option (None = panic)
 	state             int      // 1 = being analysed, 2 = analysed
 	text              string
 	pos               token.Position
@@ -534,6 +613,7 @@ func (t *translator) analyse(key string, from token.Pos) *fn {
 	if sig.Variadic() || sig.TypeParams() != nil || sig.RecvTypeParams() != nil {
 		t.failf(d.decl.Pos(), "variadic or generic function")
 	}
+	named := map[*types.Var]bool{}
 	add := func(v *types.Var) {
 		// (an unnamed or blank parameter cannot be mentioned by the body; it stays a parameter of the
 		// translated function)
@@ -552,12 +632,17 @@ func (t *translator) analyse(key string, from token.Pos) *fn {
 	}
 	for i := 0; i < sig.Results().Len(); i++ {
 		rv := sig.Results().At(i)
-		if rv.Name() != "" {
-			t.failf(rv.Pos(), "named result")
+		if rv.Name() != "" && rv.Name() != "_" {
+			// a named result is accepted when the body never mentions it outside the one recognised
+			// `defer` (errWrapDefer): every return then has explicit values
+			named[rv] = true
 		}
 		g := t.classify(d.decl.Type.Results.Pos(), rv.Type())
 		if g.ptr {
-			t.failf(d.decl.Type.Results.Pos(), "pointer result")
+			if g.k != kStruct {
+				t.failf(d.decl.Type.Results.Pos(), "pointer result")
+			}
+			g.ptr, g.opt = false, true // *S result: option S
 		}
 		f.results = append(f.results, g)
 	}
@@ -579,9 +664,9 @@ func (t *translator) analyse(key string, from token.Pos) *fn {
 	}
 	mutated := map[*param]token.Pos{}
 	noteWrite := func(lhs ast.Expr) {
-		if p := paramOf(rootIdent(lhs)); p != nil && p.g.ptr {
+		if p := paramOf(rootIdent(lhs)); p != nil && (p.g.ptr || p.g.k == kBytes) {
 			if _, isIdent := ast.Unparen(lhs).(*ast.Ident); isIdent {
-				t.failf(lhs.Pos(), "assignment to the pointer parameter %s itself", p.v.Name())
+				t.failf(lhs.Pos(), "assignment to the pointer / []byte parameter %s itself", p.v.Name())
 			}
 			if _, seen := mutated[p]; !seen {
 				mutated[p] = lhs.Pos()
@@ -590,9 +675,21 @@ func (t *translator) analyse(key string, from token.Pos) *fn {
 	}
 	ast.Inspect(d.decl.Body, func(n ast.Node) bool {
 		switch x := n.(type) {
+		case *ast.DeferStmt:
+			if errWrapDefer(info, x) {
+				return false // no effect on the nil-ness of the error result
+			}
+			t.failf(x.Pos(), "defer (other than `defer func() { if err != nil { err = fmt.Errorf(...) } }()` on a named error result)")
+		case *ast.Ident:
+			if v, ok := info.Uses[x].(*types.Var); ok && named[v] {
+				t.failf(x.Pos(), "use of the named result %s", x.Name)
+			}
 		case *ast.FuncLit:
 			t.failf(x.Pos(), "function literal")
 		case *ast.AssignStmt:
+			if isBoundsCheck(x) {
+				f.partial = true
+			}
 			for _, l := range x.Lhs {
 				noteWrite(l)
 			}
@@ -653,7 +750,17 @@ func (t *translator) analyse(key string, from token.Pos) *fn {
 			if _, ok := intrinsicOf(callee); ok {
 				return true // semantics in GoSem*.v; the arguments are ordinary expressions
 			}
+			if o, ok := oracleOf(callee); ok {
+				f.addOracle(o)
+				return true
+			}
 			g := t.analyse(funcKey(callee), x.Pos())
+			for _, o := range g.oracles {
+				f.addOracle(o)
+			}
+			if g.partial {
+				t.failf(x.Pos(), "call of %s, which contains an explicit bounds check (may panic)", g.display)
+			}
 			if g.mut != nil {
 				args := t.callArgs(info, x, g)
 				for i, p := range g.params {
@@ -709,6 +816,57 @@ func (t *translator) fieldSteps(pos token.Pos, sel *types.Selection) []fieldStep
 	return steps
 }
 
+// errWrapDefer recognises
+//
+//	defer func() { if err != nil { err = fmt.Errorf(...) } }()
+//
+// with err a variable of type error (the named result): it replaces a non-nil error by another
+// non-nil error and leaves nil alone, so under the reduction of errors to nil / non-nil it is a no-op.
+func errWrapDefer(info *types.Info, d *ast.DeferStmt) bool {
+	fl, ok := d.Call.Fun.(*ast.FuncLit)
+	if !ok || len(d.Call.Args) != 0 || fl.Type.Params.NumFields() != 0 || fl.Type.Results.NumFields() != 0 || len(fl.Body.List) != 1 {
+		return false
+	}
+	ifs, ok := fl.Body.List[0].(*ast.IfStmt)
+	if !ok || ifs.Init != nil || ifs.Else != nil || len(ifs.Body.List) != 1 {
+		return false
+	}
+	cond, ok := ifs.Cond.(*ast.BinaryExpr)
+	if !ok || cond.Op != token.NEQ {
+		return false
+	}
+	ev, ok := cond.X.(*ast.Ident)
+	if !ok || !info.Types[cond.Y].IsNil() {
+		return false
+	}
+	v, ok := info.Uses[ev].(*types.Var)
+	if !ok || !types.Identical(v.Type(), types.Universe.Lookup("error").Type()) {
+		return false
+	}
+	as, ok := ifs.Body.List[0].(*ast.AssignStmt)
+	if !ok || as.Tok != token.ASSIGN || len(as.Lhs) != 1 || len(as.Rhs) != 1 {
+		return false
+	}
+	if l, ok := as.Lhs[0].(*ast.Ident); !ok || info.Uses[l] != types.Object(v) {
+		return false
+	}
+	call, ok := as.Rhs[0].(*ast.CallExpr)
+	return ok && isErrorf(calleeOf(info, call))
+}
+
+// isBoundsCheck: the statement `_ = x[k]` (the idiom that makes the compiler check len(x) > k once).
+func isBoundsCheck(s *ast.AssignStmt) bool {
+	if s.Tok != token.ASSIGN || len(s.Lhs) != 1 || len(s.Rhs) != 1 {
+		return false
+	}
+	id, ok := s.Lhs[0].(*ast.Ident)
+	if !ok || id.Name != "_" {
+		return false
+	}
+	_, ok = ast.Unparen(s.Rhs[0]).(*ast.IndexExpr)
+	return ok
+}
+
 func builtinOf(info *types.Info, call *ast.CallExpr) string {
 	if id, ok := ast.Unparen(call.Fun).(*ast.Ident); ok {
 		if b, ok := info.Uses[id].(*types.Builtin); ok {
@@ -746,6 +904,9 @@ type fctx struct {
 	info  *types.Info
 	vars  map[types.Object]string // Go variable -> Coq name
 	taken map[string]bool
+	// optVars: locals of type *S (range variables over a []*S, results of calls): option S
+	optVars map[types.Object]bool
+	loops   []string // enclosing loops, innermost last: the tuple of the loop's state variables
 }
 
 func pad(n int) string { return strings.Repeat(" ", n) }
@@ -867,6 +1028,7 @@ type intrinsic struct {
 	params   []gtype
 	res      gtype
 	sliceLen int64 // > 0: the (single) []byte argument must have exactly this length
+	atLeast  bool  // ... or (encoding/binary) at least this length: only the first sliceLen bytes are read
 }
 
 var (
@@ -883,47 +1045,104 @@ const nlencPath = "github.com/mdlayher/netlink/nlenc"
 // putIntrinsics: nlenc.PutXxx(b, v) stores v in host (little-endian) order THROUGH the slice b;
 // only accepted as a statement whose first argument is (a constant sub-slice of) a variable.
 type putIntrinsic struct {
-	coq  string
-	size int64
-	val  gtype
+	coq     string
+	size    int64
+	val     gtype
+	atLeast bool // encoding/binary: the slice may be longer, the first size bytes are written
+}
+
+// libKey: the table key of a library function: "pkgpath.Name" for package-level functions,
+// "encoding/binary.LittleEndian.Name" for the methods of encoding/binary's littleEndian (a struct{}
+// without state: every value of the type, in particular the variable binary.LittleEndian, behaves
+// the same, so the receiver expression is not looked at).
+func libKey(f *types.Func) (string, bool) {
+	if f == nil || f.Pkg() == nil {
+		return "", false
+	}
+	if r := f.Type().(*types.Signature).Recv(); r != nil {
+		if n, ok := r.Type().(*types.Named); ok && f.Pkg().Path() == "encoding/binary" && n.Obj().Name() == "littleEndian" {
+			return "encoding/binary.LittleEndian." + f.Name(), true
+		}
+		return "", false
+	}
+	return f.Pkg().Path() + "." + f.Name(), true
+}
+
+const binLE = "encoding/binary.LittleEndian"
+
+// oracles: library functions WITHOUT a model (Unicode tables). A translated function that uses one
+// (directly or through a callee) takes it as a leading parameter of type Z -> bool; the lemma about
+// the function is then stated for EVERY such function, in particular the real one.
+var oracles = map[string]string{
+	"unicode.IsDigit":  "o_unicode_IsDigit",
+	"unicode.IsUpper":  "o_unicode_IsUpper",
+	"unicode.IsLower":  "o_unicode_IsLower",
+	"unicode.IsLetter": "o_unicode_IsLetter",
+}
+
+func oracleOf(f *types.Func) (string, bool) {
+	k, ok := libKey(f)
+	if !ok {
+		return "", false
+	}
+	o, ok := oracles[k]
+	return o, ok
+}
+
+func (f *fn) addOracle(o string) {
+	for _, x := range f.oracles {
+		if x == o {
+			return
+		}
+	}
+	f.oracles = append(f.oracles, o)
+	sort.Strings(f.oracles)
 }
 
 var putIntrinsics = map[string]putIntrinsic{
-	nlencPath + ".PutUint8":  {"nlenc_PutUint8", 1, gtype{k: kInt, bits: 8}},
-	nlencPath + ".PutUint16": {"nlenc_PutUint16", 2, gtype{k: kInt, bits: 16}},
-	nlencPath + ".PutUint32": {"nlenc_PutUint32", 4, gU32},
-	nlencPath + ".PutUint64": {"nlenc_PutUint64", 8, gU64},
-	nlencPath + ".PutInt32":  {"nlenc_PutInt32", 4, gtype{k: kInt, bits: 32, signed: true}},
+	nlencPath + ".PutUint8":  {"nlenc_PutUint8", 1, gtype{k: kInt, bits: 8}, false},
+	nlencPath + ".PutUint16": {"nlenc_PutUint16", 2, gtype{k: kInt, bits: 16}, false},
+	nlencPath + ".PutUint32": {"nlenc_PutUint32", 4, gU32, false},
+	nlencPath + ".PutUint64": {"nlenc_PutUint64", 8, gU64, false},
+	nlencPath + ".PutInt32":  {"nlenc_PutInt32", 4, gtype{k: kInt, bits: 32, signed: true}, false},
+	binLE + ".PutUint16":     {"binary_le_PutUint16", 2, gtype{k: kInt, bits: 16}, true},
+	binLE + ".PutUint32":     {"binary_le_PutUint32", 4, gU32, true},
+	binLE + ".PutUint64":     {"binary_le_PutUint64", 8, gU64, true},
 }
 
 func putIntrinsicOf(f *types.Func) (putIntrinsic, bool) {
-	if f == nil || f.Pkg() == nil || f.Type().(*types.Signature).Recv() != nil {
+	k, ok := libKey(f)
+	if !ok {
 		return putIntrinsic{}, false
 	}
-	in, ok := putIntrinsics[f.Pkg().Path()+"."+f.Name()]
+	in, ok := putIntrinsics[k]
 	return in, ok
 }
 
 var intrinsics = map[string]intrinsic{
-	"math.Max":             {"go_math_Max", []gtype{gF64, gF64}, gF64, 0},
-	"math.Min":             {"go_math_Min", []gtype{gF64, gF64}, gF64, 0},
-	"math.IsNaN":           {"go_math_IsNaN", []gtype{gF64}, gBool, 0},
-	"math.Float32bits":     {"go_math_Float32bits", []gtype{gF32}, gU32, 0},
-	"math.Float32frombits": {"go_math_Float32frombits", []gtype{gU32}, gF32, 0},
-	"math.Float64bits":     {"go_math_Float64bits", []gtype{gF64}, gU64, 0},
-	"math.Float64frombits": {"go_math_Float64frombits", []gtype{gU64}, gF64, 0},
-	nlencPath + ".Uint8":   {"nlenc_Uint8", []gtype{gByts}, gtype{k: kInt, bits: 8}, 1},
-	nlencPath + ".Uint16":  {"nlenc_Uint16", []gtype{gByts}, gtype{k: kInt, bits: 16}, 2},
-	nlencPath + ".Uint32":  {"nlenc_Uint32", []gtype{gByts}, gU32, 4},
-	nlencPath + ".Uint64":  {"nlenc_Uint64", []gtype{gByts}, gU64, 8},
-	nlencPath + ".Int32":   {"nlenc_Int32", []gtype{gByts}, gtype{k: kInt, bits: 32, signed: true}, 4},
+	"math.Max":             {"go_math_Max", []gtype{gF64, gF64}, gF64, 0, false},
+	"math.Min":             {"go_math_Min", []gtype{gF64, gF64}, gF64, 0, false},
+	"math.IsNaN":           {"go_math_IsNaN", []gtype{gF64}, gBool, 0, false},
+	"math.Float32bits":     {"go_math_Float32bits", []gtype{gF32}, gU32, 0, false},
+	"math.Float32frombits": {"go_math_Float32frombits", []gtype{gU32}, gF32, 0, false},
+	"math.Float64bits":     {"go_math_Float64bits", []gtype{gF64}, gU64, 0, false},
+	"math.Float64frombits": {"go_math_Float64frombits", []gtype{gU64}, gF64, 0, false},
+	nlencPath + ".Uint8":   {"nlenc_Uint8", []gtype{gByts}, gtype{k: kInt, bits: 8}, 1, false},
+	nlencPath + ".Uint16":  {"nlenc_Uint16", []gtype{gByts}, gtype{k: kInt, bits: 16}, 2, false},
+	nlencPath + ".Uint32":  {"nlenc_Uint32", []gtype{gByts}, gU32, 4, false},
+	nlencPath + ".Uint64":  {"nlenc_Uint64", []gtype{gByts}, gU64, 8, false},
+	nlencPath + ".Int32":   {"nlenc_Int32", []gtype{gByts}, gtype{k: kInt, bits: 32, signed: true}, 4, false},
+	binLE + ".Uint16":      {"binary_le_Uint16", []gtype{gByts}, gtype{k: kInt, bits: 16}, 2, true},
+	binLE + ".Uint32":      {"binary_le_Uint32", []gtype{gByts}, gU32, 4, true},
+	binLE + ".Uint64":      {"binary_le_Uint64", []gtype{gByts}, gU64, 8, true},
 }
 
 func intrinsicOf(f *types.Func) (intrinsic, bool) {
-	if f == nil || f.Pkg() == nil || f.Type().(*types.Signature).Recv() != nil {
+	k, ok := libKey(f)
+	if !ok {
 		return intrinsic{}, false
 	}
-	in, ok := intrinsics[f.Pkg().Path()+"."+f.Name()]
+	in, ok := intrinsics[k]
 	return in, ok
 }
 
@@ -994,47 +1213,84 @@ func (c *fctx) isTypesTyp(e ast.Expr) bool {
 	return ok && v.Pkg() != nil && v.Pkg().Path() == "go/types" && v.Name() == "Typ" && !v.IsField()
 }
 
-// sliceParts: x[lo:hi] with constant bounds (lo defaults to 0; hi defaults to the length of an
-// array operand). Returns the translated operand, the bounds and the operand's type.
-func (c *fctx) sliceParts(x *ast.SliceExpr) (base string, lo, hi int64, g gtype) {
+// sliceParts: x[lo:hi]. lo defaults to 0; hi defaults to the length of an array operand, and to
+// len(x) for a []byte operand (open-ended slice). Non-constant bounds (integer expressions) are
+// accepted only with allowVar (read positions); constant bounds are checked against each other and
+// against the length of an array operand.
+type sliceInfo struct {
+	base     string
+	g        gtype
+	lo, hi   string
+	loC, hiC int64
+	constant bool // both bounds are known constants (hi-lo = the static length of the slice)
+}
+
+func (c *fctx) sliceParts(x *ast.SliceExpr, allowVar bool) sliceInfo {
 	t := c.t
 	if x.Slice3 {
 		t.failf(x.Pos(), "3-index slice expression")
 	}
-	g = c.typeOf(x.X)
-	if g.k != kBytes && g.k != kArray {
+	si := sliceInfo{g: c.typeOf(x.X), constant: true}
+	if si.g.k != kBytes && si.g.k != kArray {
 		t.failf(x.Pos(), "slicing of %s", c.info.TypeOf(x.X))
 	}
-	bound := func(e ast.Expr, def int64) int64 {
-		if e == nil {
-			if def < 0 {
-				t.failf(x.Pos(), "slice expression without a constant upper bound")
-			}
-			return def
-		}
+	si.base = c.expr(x.X)
+	bound := func(e ast.Expr) (string, int64, bool) {
 		tv := c.info.Types[e]
 		if tv.Value == nil {
-			t.failf(e.Pos(), "non-constant slice bound")
+			if !allowVar {
+				t.failf(e.Pos(), "non-constant slice bound")
+			}
+			if g := c.typeOf(e); g.k != kInt {
+				t.failf(e.Pos(), "slice bound of non-integer type")
+			}
+			return c.expr(e), 0, false
 		}
 		n, exact := constant.Int64Val(constant.ToInt(tv.Value))
 		if !exact || n < 0 {
 			t.failf(e.Pos(), "slice bound %s", tv.Value.ExactString())
 		}
-		return n
+		return fmt.Sprint(n), n, true
 	}
-	lo = bound(x.Low, 0)
-	if g.k == kArray {
-		hi = bound(x.High, g.n)
-		if hi > g.n {
-			t.failf(x.Pos(), "slice bound %d beyond the array", hi)
+	si.lo, si.loC = "0", 0
+	if x.Low != nil {
+		var k bool
+		si.lo, si.loC, k = bound(x.Low)
+		si.constant = si.constant && k
+	}
+	hiConst := true
+	switch {
+	case x.High != nil:
+		si.hi, si.hiC, hiConst = bound(x.High)
+	case si.g.k == kArray:
+		si.hi, si.hiC = fmt.Sprint(si.g.n), si.g.n
+	default:
+		si.hi, hiConst = fmt.Sprintf("(bytes_len %s)", si.base), false
+	}
+	si.constant = si.constant && hiConst
+	if hiConst && si.g.k == kArray && si.hiC > si.g.n {
+		t.failf(x.Pos(), "slice bound %d beyond the array", si.hiC)
+	}
+	if si.constant && si.loC > si.hiC {
+		t.failf(x.Pos(), "inverted slice bounds %d:%d", si.loC, si.hiC)
+	}
+	return si
+}
+
+// bytesOperand: an expression read as a []byte by copy (source) or by a library reader: a []byte
+// expression, or a slice a[lo:hi] of a [N]byte array (the array's bytes lo..hi-1; the slice value does
+// not outlive the call, so no alias of the array is created).
+func (c *fctx) bytesOperand(e ast.Expr) string {
+	if sl, ok := ast.Unparen(e).(*ast.SliceExpr); ok {
+		if g := c.typeOf(sl.X); g.k == kArray {
+			si := c.sliceParts(sl, true)
+			return fmt.Sprintf("(bytes_slice %s %s %s)", si.base, si.lo, si.hi)
 		}
-	} else {
-		hi = bound(x.High, -1)
 	}
-	if lo > hi {
-		t.failf(x.Pos(), "inverted slice bounds %d:%d", lo, hi)
+	if g := c.typeOf(e); g.k != kBytes {
+		c.t.failf(e.Pos(), "%s used as a []byte operand", c.info.TypeOf(e))
 	}
-	return c.expr(x.X), lo, hi, g
+	return c.expr(e)
 }
 
 func (c *fctx) expr(e ast.Expr) string {
@@ -1129,18 +1385,18 @@ func (c *fctx) expr(e ast.Expr) string {
 		}
 		return fmt.Sprintf("(data_get %s %s)", c.expr(x.X), c.expr(x.Index))
 	case *ast.SliceExpr:
-		base, lo, hi, _ := c.sliceParts(x)
 		if g := c.typeOf(x.X); g.k != kBytes {
-			t.failf(x.Pos(), "slicing of %s in an expression", c.info.TypeOf(x.X))
+			t.failf(x.Pos(), "slicing of %s in an expression (only as the source of copy or the argument of a library reader)", c.info.TypeOf(x.X))
 		}
-		return fmt.Sprintf("(bytes_slice %s %d %d)", base, lo, hi)
+		si := c.sliceParts(x, true)
+		return fmt.Sprintf("(bytes_slice %s %s %s)", si.base, si.lo, si.hi)
 	case *ast.SelectorExpr:
 		sel, ok := c.info.Selections[x]
 		if !ok || sel.Kind() != types.FieldVal {
 			t.failf(x.Pos(), "selector %s is not a struct field", x.Sel.Name)
 		}
 		c.typeOf(e) // the field's own type must be in the subset
-		out := c.expr(x.X)
+		out := c.structVal(x.X)
 		for _, st := range t.fieldSteps(x.Pos(), sel) {
 			out = fmt.Sprintf("(%s_%s %s)", st.st.coq, st.fld.Name(), out)
 		}
@@ -1176,6 +1432,10 @@ func (c *fctx) expr(e ast.Expr) string {
 				return fmt.Sprintf("(bytes_len %s)", c.expr(x.Args[0]))
 			case kLen:
 				return c.expr(x.Args[0]) // the slice IS its length
+			case kList:
+				return fmt.Sprintf("(list_len %s)", c.expr(x.Args[0]))
+			case kString:
+				return fmt.Sprintf("(bytes_len %s)", c.expr(x.Args[0])) // the number of BYTES
 			}
 			t.failf(x.Pos(), "len of %s", c.info.TypeOf(x.Args[0]))
 		case "make":
@@ -1202,6 +1462,18 @@ func (c *fctx) expr(e ast.Expr) string {
 		if _, ok := putIntrinsicOf(callee); ok {
 			t.failf(x.Pos(), "%s.%s used as an expression", callee.Pkg().Name(), callee.Name())
 		}
+		if o, ok := oracleOf(callee); ok {
+			if len(x.Args) != 1 {
+				t.failf(x.Pos(), "call of %s.%s with %d arguments", callee.Pkg().Name(), callee.Name(), len(x.Args))
+			}
+			if a := c.typeOf(x.Args[0]); a.k != kInt || !a.signed || a.bits != 32 {
+				t.failf(x.Pos(), "argument of %s.%s is not a rune", callee.Pkg().Name(), callee.Name())
+			}
+			if r := c.typeOf(x); r.k != kBool {
+				t.failf(x.Pos(), "result of %s.%s is not a bool", callee.Pkg().Name(), callee.Name())
+			}
+			return fmt.Sprintf("(%s %s)", o, c.expr(x.Args[0]))
+		}
 		if in, ok := intrinsicOf(callee); ok {
 			if len(x.Args) != len(in.params) || x.Ellipsis.IsValid() {
 				t.failf(x.Pos(), "call of %s.%s with %d arguments", callee.Pkg().Path(), callee.Name(), len(x.Args))
@@ -1211,12 +1483,20 @@ func (c *fctx) expr(e ast.Expr) string {
 				if have := c.typeOf(a); !have.same(in.params[i]) || have.ptr {
 					t.failf(a.Pos(), "argument %d of %s.%s has type %s", i+1, callee.Pkg().Path(), callee.Name(), c.info.TypeOf(a))
 				}
-				if in.sliceLen > 0 { // nlenc.UintNN panics unless the slice has exactly that many bytes
+				if in.sliceLen > 0 {
+					// nlenc.UintNN panics unless the slice has exactly that many bytes, binary.LittleEndian.UintNN
+					// unless it has at least that many
 					if sl, ok := ast.Unparen(a).(*ast.SliceExpr); ok {
-						if _, lo, hi, _ := c.sliceParts(sl); hi-lo != in.sliceLen {
-							t.failf(a.Pos(), "%s.%s on a slice of %d bytes panics", callee.Pkg().Name(), callee.Name(), hi-lo)
+						si := c.sliceParts(sl, true)
+						if !si.constant {
+							t.failf(a.Pos(), "%s.%s on a slice whose length is not a constant", callee.Pkg().Name(), callee.Name())
+						}
+						if n := si.hiC - si.loC; n != in.sliceLen && !(in.atLeast && n > in.sliceLen) {
+							t.failf(a.Pos(), "%s.%s on a slice of %d bytes panics", callee.Pkg().Name(), callee.Name(), n)
 						}
 					}
+					parts = append(parts, c.bytesOperand(a))
+					continue
 				}
 				parts = append(parts, c.expr(a))
 			}
@@ -1241,9 +1521,21 @@ func (c *fctx) expr(e ast.Expr) string {
 	panic("unreachable")
 }
 
+// structVal: the struct VALUE an expression of type S or *S denotes: a parameter *S is the value; a
+// local *S (option S) is dereferenced with go_deref (nil dereference panics in Go: not modelled, the
+// zero value is read).
+func (c *fctx) structVal(e ast.Expr) string {
+	if id, ok := ast.Unparen(e).(*ast.Ident); ok && c.optVars[c.info.Uses[id]] {
+		g := c.typeOf(id)
+		return fmt.Sprintf("(go_deref zero_%s %s)", g.st.coq, c.vars[c.info.Uses[id]])
+	}
+	return c.expr(e)
+}
+
 func (c *fctx) call(x *ast.CallExpr, g *fn) string {
 	args := c.t.callArgs(c.info, x, g)
 	parts := []string{g.coq}
+	parts = append(parts, g.oracles...)
 	for i, a := range args {
 		want := g.params[i].g
 		a = ast.Unparen(a)
@@ -1253,6 +1545,10 @@ func (c *fctx) call(x *ast.CallExpr, g *fn) string {
 		have := c.typeOf(a)
 		if !have.same(want) {
 			c.t.failf(a.Pos(), "argument type does not match parameter %s of %s", g.params[i].v.Name(), g.display)
+		}
+		if want.k == kStruct {
+			parts = append(parts, c.structVal(a))
+			continue
 		}
 		parts = append(parts, c.expr(a))
 	}
@@ -1374,6 +1670,12 @@ func (c *fctx) binary(pos token.Pos, op token.Token, g gtype, xe, ye ast.Expr, x
 			}
 			return fmt.Sprintf("(negb (Bool.eqb %s %s))", xs, ys)
 		}
+		if xg.k == kString && yg.k == kString && (op == token.EQL || op == token.NEQ) {
+			if op == token.EQL {
+				return fmt.Sprintf("(go_string_eqb %s %s)", xs, ys)
+			}
+			return fmt.Sprintf("(negb (go_string_eqb %s %s))", xs, ys)
+		}
 		if xg.k == kFloat && yg.k == kFloat && xg.bits == 64 && yg.bits == 64 {
 			switch op { // IEEE: every comparison with a NaN is false, except != which is true
 			case token.EQL:
@@ -1486,7 +1788,7 @@ func (c *fctx) checkRoot(lhs ast.Expr) {
 		o = c.info.Defs[id]
 	}
 	for _, p := range c.f.params {
-		if types.Object(p.v) == o && p.g.ptr && p != c.f.mut {
+		if types.Object(p.v) == o && (p.g.ptr || p.g.k == kBytes) && p != c.f.mut {
 			c.t.failf(lhs.Pos(), "internal: write through %s not found by the analysis", id.Name)
 		}
 	}
@@ -1503,7 +1805,10 @@ func (c *fctx) ownedBytes(e ast.Expr, what string) {
 	o := c.info.Uses[id]
 	for _, p := range c.f.params {
 		if types.Object(p.v) == o {
-			c.t.failf(e.Pos(), "%s the []byte parameter %s (the caller would see the store)", what, id.Name)
+			if p == c.f.mut {
+				return // THE written parameter: its final contents are what the function returns
+			}
+			c.t.failf(e.Pos(), "internal: write through the []byte parameter %s not found by the analysis", id.Name)
 		}
 	}
 	if _, ok := c.vars[o]; !ok {
@@ -1536,15 +1841,18 @@ func (c *fctx) putStmt(call *ast.CallExpr, callee *types.Func, put putIntrinsic)
 	dst := ast.Unparen(call.Args[0])
 	c.checkRoot(dst)
 	if sl, ok := dst.(*ast.SliceExpr); ok {
-		base, lo, hi, g := c.sliceParts(sl)
-		if g.k != kBytes {
+		si := c.sliceParts(sl, false)
+		if si.g.k != kBytes {
 			t.failf(dst.Pos(), "%s.%s through a slice of %s", callee.Pkg().Name(), callee.Name(), c.info.TypeOf(sl.X))
 		}
-		if hi-lo != put.size {
-			t.failf(dst.Pos(), "%s.%s on a slice of %d bytes panics", callee.Pkg().Name(), callee.Name(), hi-lo)
+		if !si.constant {
+			t.failf(dst.Pos(), "%s.%s through a slice whose length is not a constant", callee.Pkg().Name(), callee.Name())
+		}
+		if n := si.hiC - si.loC; n != put.size && !(put.atLeast && n > put.size) {
+			t.failf(dst.Pos(), "%s.%s on a slice of %d bytes panics", callee.Pkg().Name(), callee.Name(), n)
 		}
 		c.ownedBytes(sl.X, "store through")
-		return c.store(sl.X, fmt.Sprintf("(%s %s %d %s)", put.coq, base, lo, val))
+		return c.store(sl.X, fmt.Sprintf("(%s %s %d %s)", put.coq, si.base, si.loC, val))
 	}
 	if g := c.typeOf(dst); g.k != kBytes {
 		t.failf(dst.Pos(), "%s.%s on %s", callee.Pkg().Name(), callee.Name(), c.info.TypeOf(dst))
@@ -1563,15 +1871,15 @@ func (c *fctx) copyStmt(call *ast.CallExpr) (name, newval string) {
 	if g := c.typeOf(call.Args[1]); g.k != kBytes {
 		t.failf(call.Args[1].Pos(), "copy from %s", c.info.TypeOf(call.Args[1]))
 	}
-	src := c.expr(call.Args[1])
+	src := c.bytesOperand(call.Args[1])
 	dst := ast.Unparen(call.Args[0])
 	c.checkRoot(dst)
 	if sl, ok := dst.(*ast.SliceExpr); ok {
-		base, lo, hi, g := c.sliceParts(sl)
-		if g.k == kBytes {
+		si := c.sliceParts(sl, false) // constant bounds, or open-ended b[lo:] = b[lo:len(b)]
+		if si.g.k == kBytes {
 			c.ownedBytes(sl.X, "copy into")
 		}
-		return c.store(sl.X, fmt.Sprintf("(bytes_copy_at %s %d %d %s)", base, lo, hi, src))
+		return c.store(sl.X, fmt.Sprintf("(bytes_copy_at %s %s %s %s)", si.base, si.lo, si.hi, src))
 	}
 	if g := c.typeOf(dst); g.k != kBytes {
 		t.failf(dst.Pos(), "copy to %s", c.info.TypeOf(dst))
@@ -1602,7 +1910,24 @@ func (c *fctx) block(list []ast.Stmt, ind int, k cont) string {
 			if len(s.Results) != 0 {
 				t.failf(s.Pos(), "return with a value in a result-less function")
 			}
-			return pad(ind) + c.f.mut.name
+			return pad(ind) + c.ret(c.f.mut.name)
+		}
+		if len(s.Results) == 1 && len(c.f.results) > 1 && c.f.mut == nil {
+			// return g(...) forwarding all results of a whitelisted function
+			call, ok := ast.Unparen(s.Results[0]).(*ast.CallExpr)
+			if !ok {
+				t.failf(s.Pos(), "return with 1 value for %d results", len(c.f.results))
+			}
+			g := c.tupleCallee(call)
+			if len(g.results) != len(c.f.results) {
+				t.failf(s.Pos(), "return of a call with %d results for %d results", len(g.results), len(c.f.results))
+			}
+			for i := range g.results {
+				if !g.results[i].same(c.f.results[i]) || g.results[i].opt != c.f.results[i].opt {
+					t.failf(s.Pos(), "result %d of %s does not have the result type", i+1, g.display)
+				}
+			}
+			return pad(ind) + c.ret("("+c.call(call, g)+")")
 		}
 		if len(s.Results) != len(c.f.results) {
 			t.failf(s.Pos(), "return with %d values for %d results", len(s.Results), len(c.f.results))
@@ -1622,9 +1947,27 @@ func (c *fctx) block(list []ast.Stmt, ind int, k cont) string {
 					vals = append(vals, "bytes_nil")
 				case kLen:
 					vals = append(vals, "0")
+				case kList:
+					vals = append(vals, "[]")
+				case kStruct:
+					if !want.opt {
+						t.failf(r.Pos(), "nil returned at a type outside the subset")
+					}
+					vals = append(vals, "None")
 				default:
 					t.failf(r.Pos(), "nil returned at a type outside the subset")
 				}
+				continue
+			}
+			if want.opt {
+				id, ok := r.(*ast.Ident)
+				if !ok || !c.optVars[c.info.Uses[id]] {
+					t.failf(r.Pos(), "a *%s result that is neither nil nor a local pointer variable", want.st.coq)
+				}
+				if have := c.typeOf(r); !have.same(want) {
+					t.failf(r.Pos(), "returned pointer of type %s does not have the result type", c.info.TypeOf(r))
+				}
+				vals = append(vals, c.vars[c.info.Uses[id]])
 				continue
 			}
 			if have := c.typeOf(r); !have.same(want) {
@@ -1633,9 +1976,9 @@ func (c *fctx) block(list []ast.Stmt, ind int, k cont) string {
 			vals = append(vals, c.expr(r))
 		}
 		if len(vals) == 1 {
-			return pad(ind) + vals[0]
+			return pad(ind) + c.ret(vals[0])
 		}
-		return pad(ind) + "(" + strings.Join(vals, ", ") + ")"
+		return pad(ind) + c.ret("("+strings.Join(vals, ", ")+")")
 	case *ast.DeclStmt:
 		gd, ok := s.Decl.(*ast.GenDecl)
 		if !ok || (gd.Tok != token.VAR && gd.Tok != token.CONST) {
@@ -1669,6 +2012,59 @@ func (c *fctx) block(list []ast.Stmt, ind int, k cont) string {
 		}
 		return strings.Join(lets, "") + rest(ind)
 	case *ast.AssignStmt:
+		if isBoundsCheck(s) {
+			// `_ = b[k]`: panics unless k < len(b); the one run-time panic that is modelled (None)
+			ix := ast.Unparen(s.Rhs[0]).(*ast.IndexExpr)
+			if g := c.typeOf(ix.X); g.k != kBytes {
+				t.failf(s.Pos(), "bounds check on %s", c.info.TypeOf(ix.X))
+			}
+			itv := c.info.Types[ix.Index]
+			if itv.Value == nil {
+				t.failf(s.Pos(), "bounds check with a non-constant index")
+			}
+			k, exact := constant.Int64Val(constant.ToInt(itv.Value))
+			if !exact || k < 0 || !c.f.partial {
+				t.failf(s.Pos(), "bounds check with index %s", itv.Value.ExactString())
+			}
+			return pad(ind) + fmt.Sprintf("if (bytes_len %s <=? %d) then None (* panic: index out of range *) else (\n", c.expr(ix.X), k) +
+				rest(ind+2) + "\n" + pad(ind) + ")"
+		}
+		if len(s.Lhs) > 1 && len(s.Rhs) == 1 && s.Tok == token.DEFINE {
+			// x, y := g(...) with g a whitelisted function with that many results (a *S result: option S)
+			call, ok := ast.Unparen(s.Rhs[0]).(*ast.CallExpr)
+			if !ok {
+				t.failf(s.Pos(), "multi-valued short variable declaration from something that is not a call")
+			}
+			g := c.tupleCallee(call)
+			if len(g.results) != len(s.Lhs) {
+				t.failf(s.Pos(), "%d variables for the %d results of %s", len(s.Lhs), len(g.results), g.display)
+			}
+			val := c.call(call, g) // before the new variables come into scope
+			var names []string
+			for i, l := range s.Lhs {
+				id, ok := l.(*ast.Ident)
+				if !ok {
+					t.failf(l.Pos(), "short variable declaration of something that is not a variable")
+				}
+				if id.Name == "_" {
+					names = append(names, "_")
+					continue
+				}
+				o := c.info.Defs[id]
+				if o == nil {
+					t.failf(l.Pos(), "short variable declaration that redeclares %s", id.Name)
+				}
+				r := g.results[i]
+				if r.k == kErr || r.k == kBytes {
+					t.failf(l.Pos(), "local variable of error or []byte type bound to a call result")
+				}
+				if r.opt {
+					c.optVars[o] = true
+				}
+				names = append(names, c.declare(o))
+			}
+			return pad(ind) + "let '(" + strings.Join(names, ", ") + ") := (" + val + ") in\n" + rest(ind)
+		}
 		if len(s.Lhs) != 1 || len(s.Rhs) != 1 {
 			t.failf(s.Pos(), "assignment with more than one operand on a side")
 		}
@@ -1760,6 +2156,20 @@ func (c *fctx) block(list []ast.Stmt, ind int, k cont) string {
 			}
 		}
 		t.failf(s.Pos(), "internal: written parameter not found")
+	case *ast.DeferStmt:
+		if !errWrapDefer(c.info, s) {
+			t.failf(s.Pos(), "defer")
+		}
+		return rest(ind)
+	case *ast.BranchStmt:
+		if s.Tok != token.CONTINUE || s.Label != nil || len(c.loops) == 0 {
+			t.failf(s.Pos(), "%s outside the subset (only an unlabelled continue inside a loop)", s.Tok)
+		}
+		return pad(ind) + "LoopNext " + c.loops[len(c.loops)-1]
+	case *ast.RangeStmt:
+		return c.rangeStmt(s, ind, rest)
+	case *ast.ForStmt:
+		return c.forStmt(s, ind, rest)
 	case *ast.IfStmt:
 		body := func(ind int) string {
 			if g := c.typeOf(s.Cond); g.k != kBool {
@@ -1782,7 +2192,7 @@ func (c *fctx) block(list []ast.Stmt, ind int, k cont) string {
 			var tg gtype
 			if s.Tag != nil {
 				tg = c.typeOf(s.Tag)
-				if tg.k != kInt && tg.k != kBool {
+				if tg.k != kInt && tg.k != kBool && tg.k != kString {
 					t.failf(s.Tag.Pos(), "switch on a value of type %s", c.info.TypeOf(s.Tag))
 				}
 				tag = fmt.Sprintf("sw_%d", t.fset.Position(s.Pos()).Line)
@@ -1825,6 +2235,8 @@ func (c *fctx) block(list []ast.Stmt, ind int, k cont) string {
 						conds = append(conds, fmt.Sprintf("(Bool.eqb %s %s)", tag, c.expr(ce)))
 					case tg.k == kInt && cg.k == kInt && cg.bits == tg.bits && cg.signed == tg.signed:
 						conds = append(conds, fmt.Sprintf("(%s =? %s)", tag, c.expr(ce)))
+					case tg.k == kString && cg.k == kString:
+						conds = append(conds, fmt.Sprintf("(go_string_eqb %s %s)", tag, c.expr(ce)))
 					default:
 						t.failf(ce.Pos(), "case value of a type different from the tag's")
 					}
@@ -1845,6 +2257,253 @@ func (c *fctx) block(list []ast.Stmt, ind int, k cont) string {
 	}
 	t.failf(list[0].Pos(), "statement of kind %s is outside the subset", stmtKind(list[0]))
 	panic("unreachable")
+}
+
+// tupleCallee: the whitelisted function a call with several results invokes.
+func (c *fctx) tupleCallee(call *ast.CallExpr) *fn {
+	if ftv, ok := c.info.Types[call.Fun]; (ok && ftv.IsType()) || builtinOf(c.info, call) != "" {
+		c.t.failf(call.Pos(), "conversion or builtin where a call with several results is needed")
+	}
+	callee := calleeOf(c.info, call)
+	if callee == nil {
+		c.t.failf(call.Pos(), "call of a function value or an interface method")
+	}
+	g := c.t.fns[funcKey(callee)]
+	if g == nil {
+		c.t.failf(call.Pos(), "call of %s, which is not a whitelisted function", callee.Name())
+	}
+	if g.mut != nil || g.partial || len(g.results) < 2 {
+		c.t.failf(call.Pos(), "call of %s where a pure function with several results is needed", g.display)
+	}
+	return g
+}
+
+// loopState: the variables declared OUTSIDE the loop body that the body assigns (in order of first
+// assignment): the state threaded through the iterations.
+func (c *fctx) loopState(body *ast.BlockStmt, own map[types.Object]bool) (tuple string, names []string) {
+	seen := map[types.Object]bool{}
+	note := func(lhs ast.Expr) {
+		id := rootIdent(lhs)
+		if id == nil || id.Name == "_" {
+			return
+		}
+		o := c.info.Uses[id]
+		if o == nil || own[o] || seen[o] {
+			return
+		}
+		if n, ok := c.vars[o]; ok { // declared before the loop
+			seen[o] = true
+			names = append(names, n)
+		}
+	}
+	ast.Inspect(body, func(n ast.Node) bool {
+		switch x := n.(type) {
+		case *ast.AssignStmt:
+			if x.Tok != token.DEFINE {
+				for _, l := range x.Lhs {
+					note(l)
+				}
+			}
+		case *ast.IncDecStmt:
+			note(x.X)
+		case *ast.CallExpr:
+			if builtinOf(c.info, x) == "copy" && len(x.Args) == 2 {
+				note(x.Args[0])
+			} else if callee := calleeOf(c.info, x); callee != nil {
+				if _, ok := putIntrinsicOf(callee); ok && len(x.Args) == 2 {
+					note(x.Args[0])
+				} else if g := c.t.fns[funcKey(callee)]; g != nil && g.mut != nil {
+					args := c.t.callArgs(c.info, x, g)
+					for i, p := range g.params {
+						if p == g.mut {
+							note(args[i])
+						}
+					}
+				}
+			}
+		}
+		return true
+	})
+	switch len(names) {
+	case 0:
+		return "tt", names
+	case 1:
+		return names[0], names
+	}
+	return "(" + strings.Join(names, ", ") + ")", names
+}
+
+// loop emits  match <combinator> (fun <key> <elem> <state> => body) <init...> <state> with ... end.
+func (c *fctx) loop(ind int, comb, key, elem, bind, args, state string, nstate int, body *ast.BlockStmt, rest cont) string {
+	st := state
+	if nstate == 0 {
+		st = "_"
+	}
+	pat := st
+	if nstate > 1 {
+		pat = "st__"
+	}
+	out := pad(ind) + "match " + comb + " (fun " + key + " " + elem + " " + pat + " =>\n"
+	if nstate > 1 {
+		out += pad(ind+4) + "let '" + state + " := st__ in\n"
+	}
+	out += bind
+	c.loops = append(c.loops, state)
+	out += c.block(body.List, ind+4, func(ind int) string { return pad(ind) + "LoopNext " + state })
+	c.loops = c.loops[:len(c.loops)-1]
+	out += "\n" + pad(ind+2) + ") " + args + " " + state + " with\n"
+	out += pad(ind) + "| LoopReturn r__ => " + c.loopRet("r__") + "\n"
+	out += pad(ind) + "| LoopNext " + st + " =>\n" + rest(ind+4) + "\n" + pad(ind) + "end"
+	return out
+}
+
+// rangeStmt: for k, x := range e { ... } over a []S / []*S (kList), a []byte or a string. The body may
+// assign locals, continue and return; break, goto and labels are outside the subset.
+func (c *fctx) rangeStmt(s *ast.RangeStmt, ind int, rest cont) string {
+	t := c.t
+	if s.Tok != token.DEFINE && (s.Key != nil || s.Value != nil) {
+		t.failf(s.Pos(), "range that assigns to existing variables")
+	}
+	xg := c.typeOf(s.X)
+	xs := c.expr(s.X)
+	own := map[types.Object]bool{}
+	name := func(e ast.Expr) (string, types.Object) {
+		if e == nil {
+			return "_", nil
+		}
+		id, ok := e.(*ast.Ident)
+		if !ok {
+			t.failf(e.Pos(), "range variable that is not an identifier")
+		}
+		if id.Name == "_" {
+			return "_", nil
+		}
+		o := c.info.Defs[id]
+		own[o] = true
+		return c.declare(o), o
+	}
+	key, _ := name(s.Key)
+	elem, eo := name(s.Value)
+	bind := ""
+	comb := "go_range"
+	switch xg.k {
+	case kList:
+		if eo != nil {
+			if _, isPtr := eo.Type().(*types.Pointer); isPtr {
+				// the element of a []*S is a pointer: the range variable is a local *S (option S); the
+				// elements of the slice are assumed non-nil
+				c.optVars[eo] = true
+				bind = pad(ind+4) + "let " + elem + " := Some " + elem + "__ in\n"
+				elem += "__"
+			}
+		}
+	case kBytes:
+	case kString:
+		comb = "go_range_string"
+	default:
+		t.failf(s.X.Pos(), "range over %s", c.info.TypeOf(s.X))
+	}
+	state, names := c.loopState(s.Body, own)
+	if id := rootIdent(s.X); id != nil {
+		// the elements of a slice are read when they are reached: a body that stores into the slice it
+		// ranges over would see its own stores, which the fold over the initial contents does not show
+		if n, ok := c.vars[c.info.Uses[id]]; ok {
+			for _, m := range names {
+				if m == n {
+					t.failf(s.X.Pos(), "loop body assigns %s, which the loop ranges over", id.Name)
+				}
+			}
+		}
+	}
+	args := "0 " + xs
+	return c.loop(ind, comb, key, elem, bind, args, state, len(names), s.Body, rest)
+}
+
+// forStmt: for i := 0; i < len(x); i++ { ... } with a body that assigns neither i nor x: the same
+// fold, over the indices 0 .. len(x)-1 (go_iota).
+func (c *fctx) forStmt(s *ast.ForStmt, ind int, rest cont) string {
+	t := c.t
+	bad := func() { t.failf(s.Pos(), "for loop that is not of the form `for i := 0; i < len(x); i++`") }
+	init, ok := s.Init.(*ast.AssignStmt)
+	if !ok || init.Tok != token.DEFINE || len(init.Lhs) != 1 || len(init.Rhs) != 1 {
+		bad()
+	}
+	iv, ok := init.Lhs[0].(*ast.Ident)
+	if !ok || iv.Name == "_" {
+		bad()
+	}
+	if tv := c.info.Types[init.Rhs[0]]; tv.Value == nil || constant.Sign(constant.ToInt(tv.Value)) != 0 {
+		bad()
+	}
+	io := c.info.Defs[iv]
+	if g := t.classify(iv.Pos(), io.Type()); g.k != kInt || !g.signed || g.bits != 64 {
+		bad()
+	}
+	cond, ok := s.Cond.(*ast.BinaryExpr)
+	if !ok || cond.Op != token.LSS {
+		bad()
+	}
+	if id, ok := ast.Unparen(cond.X).(*ast.Ident); !ok || c.info.Uses[id] != io {
+		bad()
+	}
+	lenCall, ok := ast.Unparen(cond.Y).(*ast.CallExpr)
+	if !ok || builtinOf(c.info, lenCall) != "len" || len(lenCall.Args) != 1 {
+		bad()
+	}
+	xid, ok := ast.Unparen(lenCall.Args[0]).(*ast.Ident)
+	if !ok {
+		bad()
+	}
+	xo := c.info.Uses[xid]
+	post, ok := s.Post.(*ast.IncDecStmt)
+	if !ok || post.Tok != token.INC {
+		bad()
+	}
+	if id, ok := ast.Unparen(post.X).(*ast.Ident); !ok || c.info.Uses[id] != io {
+		bad()
+	}
+	n := c.expr(cond.Y) // len(x), before i comes into scope
+	own := map[types.Object]bool{io: true}
+	key := c.declare(io)
+	state, names := c.loopState(s.Body, own)
+	// the body must assign neither i nor x
+	ast.Inspect(s.Body, func(nd ast.Node) bool {
+		check := func(l ast.Expr) {
+			if id := rootIdent(l); id != nil && (c.info.Uses[id] == io || c.info.Uses[id] == xo) {
+				t.failf(l.Pos(), "loop body assigns the loop variable or the slice the loop runs over")
+			}
+		}
+		switch x := nd.(type) {
+		case *ast.AssignStmt:
+			for _, l := range x.Lhs {
+				check(l)
+			}
+		case *ast.IncDecStmt:
+			check(x.X)
+		case *ast.CallExpr:
+			if builtinOf(c.info, x) == "copy" && len(x.Args) == 2 {
+				check(x.Args[0])
+			}
+		}
+		return true
+	})
+	return c.loop(ind, "go_range", key, "_", "", "0 (go_iota "+n+")", state, len(names), s.Body, rest)
+}
+
+// ret: the value a return yields: wrapped in Some for a function with an explicit bounds check.
+func (c *fctx) ret(v string) string {
+	if c.f.partial {
+		v = "Some " + v
+	}
+	return c.loopRet(v)
+}
+
+// loopRet: inside a loop body a return leaves the loop with LoopReturn (GoSem.v go_range).
+func (c *fctx) loopRet(v string) string {
+	if len(c.loops) > 0 {
+		return "LoopReturn (" + v + ")"
+	}
+	return v
 }
 
 func stmtKind(s ast.Stmt) string {
@@ -1874,8 +2533,12 @@ func stmtKind(s ast.Stmt) string {
 func (t *translator) translate(f *fn) {
 	t.cur = f
 	defer func() { t.cur = nil }()
-	c := &fctx{t: t, f: f, info: f.d.pkg.TypesInfo, vars: map[types.Object]string{}, taken: map[string]bool{}}
+	c := &fctx{t: t, f: f, info: f.d.pkg.TypesInfo, vars: map[types.Object]string{}, taken: map[string]bool{}, optVars: map[types.Object]bool{}}
 	var ps []string
+	for _, o := range f.oracles {
+		c.taken[o] = true
+		ps = append(ps, fmt.Sprintf("(%s : Z -> bool)", o))
+	}
 	for _, p := range f.params {
 		p.name = c.declare(p.v)
 		ps = append(ps, fmt.Sprintf("(%s : %s)", p.name, p.g.coq()))
@@ -1891,11 +2554,14 @@ func (t *translator) translate(f *fn) {
 	if len(rts) > 1 {
 		ret = "(" + ret + ")"
 	}
+	if f.partial {
+		ret = "option " + ret
+	}
 	end := func(ind int) string {
 		if f.res != nil {
 			t.failf(f.d.decl.Body.Rbrace, "control reaches the end of a function with a result")
 		}
-		return pad(ind) + f.mut.name
+		return pad(ind) + c.ret(f.mut.name)
 	}
 	body := c.block(f.d.decl.Body.List, 2, end)
 	rel, _ := filepath.Rel(t.root, f.pos.Filename)
@@ -2103,13 +2769,20 @@ func run(root, out string, only []string) (status int) {
 		var fl []string
 		for _, f := range s.fields {
 			g := t.classify(f.Pos(), f.Type())
-			if g.k == kStruct {
+			if g.k == kStruct || g.k == kList {
 				emit(g.st)
 			}
 			fl = append(fl, fmt.Sprintf("%s_%s : %s", s.coq, f.Name(), g.coq()))
 		}
 		p := t.fset.Position(s.named.Obj().Pos())
 		rel, _ := filepath.Rel(root, p.Filename)
+		if len(s.fields) == 0 {
+			// only ever an element of a slice whose length is taken: a type with one value
+			fmt.Fprintf(&b, "(** %s:%d  struct %s: none of its fields is used by the translated functions *)\n", rel, p.Line, strings.TrimPrefix(s.qual, modPath))
+			fmt.Fprintf(&b, "Inductive %s := mk_%s.\nDefinition zero_%s : %s := mk_%s.\n\n", s.coq, s.coq, s.coq, s.coq, s.coq)
+			fmt.Printf("RECORD %s 0 fields\n", s.coq)
+			return
+		}
 		fmt.Fprintf(&b, "(** %s:%d  struct %s, the fields used by the translated functions *)\n", rel, p.Line, strings.TrimPrefix(s.qual, modPath))
 		fmt.Fprintf(&b, "Record %s := { %s }.\n", s.coq, strings.Join(fl, "; "))
 		for _, f := range s.fields {
@@ -2129,10 +2802,6 @@ func run(root, out string, only []string) (status int) {
 		fmt.Printf("RECORD %s %d fields\n", s.coq, len(s.fields))
 	}
 	for _, s := range t.sorder {
-		if len(s.fields) == 0 {
-			fmt.Fprintf(os.Stderr, "TRANSLATE-ERROR struct %s is used but none of its fields is\n", s.qual)
-			return 2
-		}
 		emit(s)
 	}
 	files := map[string]bool{}
